@@ -77,12 +77,48 @@ def run(tier, seed):
         ref_jobs.append({"kind": "hendrix", "m": m, "Qa": qa, "Qb": qb, "mu_a": kw["demand_poisson_mean_a"], "mu_b": kw["demand_poisson_mean_b"],
                          "rho": kw["substitution_probability"], "stocks": stocks})
         plan.append(("hendrix", kw))
+    # twins: for one instance of every class, further instances that differ from it in exactly one distribution parameter, built right after it
+    # in the same process (nothing computed for one instance may leak into the next one of the same class and sizes)
+    group_of = {j: j for j in range(len(impl_ops))}
+    firsts = {}
+    for j, (kind, kw) in enumerate(list(plan)):
+        if kind in firsts:
+            continue
+        firsts[kind] = j
+        edits = {"demoor": [{"demand_gamma_mean": kw.get("demand_gamma_mean", 4.0) * 1.5}, {"demand_gamma_cov": kw.get("demand_gamma_cov", 0.5) + 0.25}],
+                 "mirjalili": [{"useful_life_at_arrival_distribution_c_0": tuple(x + 0.5 for x in kw.get("useful_life_at_arrival_distribution_c_0", ()))},
+                               {"weekday_demand_negbin_delta": tuple(x + 1.0 for x in kw.get("weekday_demand_negbin_delta", ()))}],
+                 "hendrix": [{"substitution_probability": 0.8 if kw.get("substitution_probability") != 0.8 else 0.2},
+                             {"demand_poisson_mean_a": kw.get("demand_poisson_mean_a", 2.0) + 1.0},
+                             {"sales_price_a": kw.get("sales_price_a", 1.0) + 1.0}]}[kind]
+        for e_ in edits:
+            kw2 = dict(kw, **e_)
+            impl_ops.append({"op": "probtab", "target": shipped.T[kind], "kwargs": kw2, "full": True})
+            group_of[len(impl_ops) - 1] = j
+            if kind == "demoor":
+                ref_jobs.append({"kind": "demoor", "max_demand": kw2["max_demand"], "mean": kw2["demand_gamma_mean"], "cov": kw2["demand_gamma_cov"]})
+            elif kind == "mirjalili":
+                ref_jobs.append({"kind": "mirjalili", "max_demand": kw2["max_demand"], "m": kw2["max_useful_life"], "Q": kw2["max_order_quantity"], "weekdays": list(range(7)),
+                                 "n": kw2["weekday_demand_negbin_n"], "delta": kw2["weekday_demand_negbin_delta"], "c0": kw2["useful_life_at_arrival_distribution_c_0"],
+                                 "c1": kw2["useful_life_at_arrival_distribution_c_1"]})
+            else:
+                m_, qa_, qb_ = kw2["max_useful_life"], kw2["max_order_quantity_a"], kw2["max_order_quantity_b"]
+                ref_jobs.append({"kind": "hendrix", "m": m_, "Qa": qa_, "Qb": qb_, "mu_a": kw2["demand_poisson_mean_a"], "mu_b": kw2["demand_poisson_mean_b"],
+                                 "rho": kw2["substitution_probability"], "stocks": sorted({(sa, sb) for sa in range(qa_ * m_ + 1) for sb in range(qb_ * m_ + 1)})})
+            plan.append((kind, kw2))
+            res.count(f"twin:{kind}")
     for p in (0.0, 0.1, 0.37, 1.0):
+        group_of[len(impl_ops)] = len(impl_ops)
         impl_ops.append({"op": "probtab", "target": shipped.T["forest"], "kwargs": {"S": 4, "p": p}, "full": True})
         ref_jobs.append(None)
         plan.append(("forest", {"S": 4, "p": p}))
     W = 6
-    chunks = [list(range(len(impl_ops)))[i::W] for i in range(W)]
+    groups = {}
+    for j in range(len(impl_ops)):
+        groups.setdefault(group_of[j], []).append(j)
+    chunks = [[] for _ in range(W)]
+    for gi, (g, members) in enumerate(sorted(groups.items())):
+        chunks[gi % W].extend(members)       # a twin runs in the same process, right after the instance it was derived from
     outs = core.run_impl_parallel([([impl_ops[j] for j in ch], 1) for ch in chunks if ch], workers=W)
     impl = {}
     for ch, out in zip([c for c in chunks if c], outs):
